@@ -28,6 +28,10 @@ func (q *PromQueryRangeController) QueryInstant(w http.ResponseWriter, r *http.R
 		PromError(400, err.Error(), w)
 		return
 	}
+	if err = checkSubqueries(req.Query); err != nil {
+		PromError(400, err.Error(), w)
+		return
+	}
 	promQuery, err := q.Api.QueryEngine.NewInstantQuery(q.Storage.SetOidAndDB(ctx), nil, req.Query, req.Time)
 	if err != nil {
 		PromError(500, err.Error(), w)
